@@ -106,6 +106,24 @@ func (p *pkgInfo) startedSetBeforeServe(fn string) (n int, ok bool) {
 	return
 }
 
+// loopChecksStarted: the function contains a for statement whose condition calls srv.isStarted()
+// (`loopCheck` / `wCheck` of the model: the serve loops and the per-connection loop re-test the flag every round)
+func (p *pkgInfo) loopChecksStarted(fn string) bool {
+	fd := p.funcs[fn]
+	if fd == nil || fd.Body == nil {
+		fail("function %s not found", fn)
+		return false
+	}
+	found := false
+	ast.Inspect(fd.Body, func(n ast.Node) bool {
+		if f, ok := n.(*ast.ForStmt); ok && f.Cond != nil && strings.Contains(p.src(f.Cond), "srv.isStarted()") {
+			found = true
+		}
+		return true
+	})
+	return found
+}
+
 func (p *pkgInfo) serverFacts() string {
 	var b strings.Builder
 	b.WriteString("def readersAtomic : List (String × Bool) := [")
@@ -124,6 +142,14 @@ func (p *pkgInfo) serverFacts() string {
 		}
 		n, ok := p.startedSetBeforeServe(fn)
 		fmt.Fprintf(&b, "(%s, %d, %v)", leanStr(fn), n, ok)
+	}
+	b.WriteString("]\n")
+	b.WriteString("def loopsCheckStarted : List (String × Bool) := [")
+	for i, fn := range []string{"Server.serveTCP", "Server.serveUDP", "Server.serveTCPConn"} {
+		if i > 0 {
+			b.WriteString(", ")
+		}
+		fmt.Fprintf(&b, "(%s, %v)", leanStr(fn), p.loopChecksStarted(fn))
 	}
 	b.WriteString("]\n")
 	return b.String()
